@@ -825,6 +825,118 @@ fn check_large_reg(case: &LargeRegCase, ctx: &mut Ctx) {
     }
 }
 
+// ------------------------------------------------------------------------------------------------
+// section refetch_after_failed_write: "any record a node has accepted and stored is accepted by an
+// honest in-range neighbour with spare capacity when fetched through replication" — also when the
+// neighbour's FIRST attempt to write the fetched copy failed on disk (a transient fault): once the disk
+// works again, further rounds must leave the neighbour holding the record.
+// ------------------------------------------------------------------------------------------------
+
+#[derive(Clone, Debug, Serialize, Deserialize)]
+pub struct RefetchCase {
+    /// 0 chunk, 1 register, 2 transaction set, 3 scratchpad
+    pub kind: u8,
+    /// replication rounds while the neighbour's write of that record fails
+    pub blocked_rounds: u8,
+    /// node 0 holds two further chunks (replicated without any fault)
+    pub bystanders: bool,
+    pub sched: Vec<u16>,
+}
+
+fn refetch_strategy() -> BoxedStrategy<RefetchCase> {
+    (0u8..4, 1u8..3, any::<bool>(), proptest::collection::vec(any::<u16>(), 0..30)).prop_map(|(kind, blocked_rounds, bystanders, sched)| RefetchCase { kind, blocked_rounds, bystanders, sched }).boxed()
+}
+
+fn check_refetch(case: &RefetchCase, ctx: &mut Ctx) {
+    let mut cl = Cluster::new(&[340, 341], None);
+    let rec = match case.kind {
+        0 => fix::chunk_record(&fix::chunk(760, 40)),
+        1 => fix::register_record(fix::register_key(OWNER, META), &fix::signed_register(&fix::register_base(OWNER, META, Some(vec![])), OWNER, reg_ops()[0..2].to_vec())),
+        2 => fix::transactions_record(fix::transaction_key(OWNER + 2), &vec![fix::transaction(OWNER + 2, 0, true), fix::transaction(OWNER + 2, 1, true)]),
+        _ => fix::scratchpad_record(&pad_of(3)),
+    };
+    let key = rec.key.clone();
+    let value = rec.value.clone();
+    cl.seed_record(0, rec);
+    if case.bystanders {
+        cl.seed_record(0, fix::chunk_record(&fix::chunk(761, 41)));
+        cl.seed_record(0, fix::chunk_record(&fix::chunk(762, 42)));
+    }
+    // the neighbour's write of exactly that record fails: its file path is occupied by a directory
+    let path = cl.nodes[1].dir.path().join("record_store").join(hex::encode(key.as_ref()));
+    if !path.parent().map(|p| p.is_dir()).unwrap_or(false) || std::fs::create_dir(&path).is_err() {
+        ctx.label("fault_could_not_be_injected");
+        return;
+    }
+    let mut si = 0usize;
+    let mut round = |cl: &mut Cluster, si: &mut usize| {
+        for i in 0..2 {
+            let d = &mut cl.nodes[i].driver;
+            cl.rt.block_on(async move {
+                d.verif_reset_replication_throttle();
+                let _ = d.verif_handle_local_cmd(LocalSwarmCmd::TriggerIntervalReplication);
+            });
+        }
+        let sched = case.sched.clone();
+        cl.settle_with(|pending| {
+            let c = sched.get(*si).copied().unwrap_or(0);
+            *si += 1;
+            pick_idx(c, pending.len())
+        });
+    };
+    for _ in 0..case.blocked_rounds {
+        round(&mut cl, &mut si);
+        if cl.inconclusive {
+            ctx.label("inconclusive_timeout");
+            return;
+        }
+    }
+    let fetched_while_blocked = cl.wire.iter().any(|(from, to, what)| *from == 1 && *to == Some(0) && what.contains("GetReplicatedRecord"));
+    ctx.label_if(fetched_while_blocked, "fetch_attempted_while_the_write_fails");
+    let held_while_blocked = cl.local_has(1, &key);
+    // the disk works again
+    let _ = std::fs::remove_dir(&path);
+    let mut rounds_after = 0;
+    for _ in 0..4 {
+        round(&mut cl, &mut si);
+        rounds_after += 1;
+        if cl.inconclusive {
+            ctx.label("inconclusive_timeout");
+            return;
+        }
+        if cl.local_has(1, &key) && cl.local_get(1, &key).is_some() {
+            break;
+        }
+    }
+    ctx.label(format!("kind_{}", ["chunk", "register", "transactions", "scratchpad"][case.kind as usize % 4]));
+    ctx.label(format!("rounds_after_recovery_{rounds_after}"));
+    ctx.nontrivial_if(fetched_while_blocked && !held_while_blocked);
+    if !fetched_while_blocked {
+        // nothing was fetched during the fault: the case degenerates to plain replication
+        ctx.label("no_fetch_during_the_fault");
+    }
+    let listed = cl.local_has(1, &key);
+    let got = cl.local_get(1, &key).map(|r| r.value);
+    if !listed || got.is_none() {
+        ctx.fail(
+            "record_not_held_by_neighbour_after_its_disk_recovered",
+            format!("{} held by node 0; node 1's first write of the fetched copy failed ({} round(s)); after {rounds_after} further rounds with a working disk node 1 lists it: {listed}, can read it: {}", ["chunk", "register", "transaction set", "scratchpad"][case.kind as usize % 4], case.blocked_rounds, got.is_some()),
+        );
+        return;
+    }
+    if got.as_ref() != Some(&value) {
+        ctx.fail("refetched_record_differs_from_the_holders_copy", format!("kind {}", case.kind));
+    }
+    if case.bystanders {
+        for c in [761u64, 762] {
+            let r = fix::chunk_record(&fix::chunk(c, (c - 720) as usize));
+            if cl.local_get(1, &r.key).map(|x| x.value) != Some(r.value) {
+                ctx.precondition_failed("bystander_chunk_not_replicated", format!("chunk {c}"));
+            }
+        }
+    }
+}
+
 pub fn run(cfg: RunCfg) {
     let mut rep = Report::new(cfg, "exploration");
     rep.rule = "C09: 2-3 real nodes (each other's closest peers, spare capacity, unrestricted range) with generated initial contents (4 chunks, a register with op subsets, a transaction set, a scratchpad with counters; missing / diverging), 2-4 rounds of interval replication on every node, every message delivered in a generated order; the harness is the transport.".into();
@@ -852,6 +964,11 @@ pub fn run(cfg: RunCfg) {
         rep, "full_node", (500, 8_000), 16,
         "node 0 filled to its capacity (2..5 records) with a register / transaction set and chunks placed closer to it (or one beyond it), a farther record refused with MaxRecords, the neighbour holding another version of the mutable record; 2..3 replication rounds in generated delivery order. non-trivial: versions differ and the mutable record is node 0's farthest",
         full_strategy, check_full
+    );
+    vh_core::section!(
+        rep, "refetch_after_failed_write", (400, 8_000), 16,
+        "node 0 holds a record (chunk / register / transaction set / scratchpad); node 1's write of the fetched copy fails during the first 1..2 replication rounds (its file path is occupied), then the disk works again and up to 4 further rounds run in generated delivery order; node 1 must end up listing and serving the record byte-identically. non-trivial: a fetch was attempted during the fault and left nothing held",
+        refetch_strategy, check_refetch
     );
     vh_core::section!(
         rep, "large_register", (12, 400), 12,
